@@ -45,6 +45,15 @@ def run_body(args, body):
       if not isinstance(v, nnx.Variable):
         raise LookupError('not a Variable')
       v.value = ev(args, m[2])
+    elif k == 'setmeta':
+      v = resolve(args, m[1])
+      if not isinstance(v, nnx.Variable):
+        raise LookupError('not a Variable')
+      md, target = v.get_metadata(), IG.METAS[m[2]]
+      for key in [key for key in md if key not in target and not key.startswith('on_')]:
+        delattr(v, key)
+      for key, val in target.items():
+        setattr(v, key, val)
     elif k == 'setattr':
       node = resolve(args, m[1])
       if not isinstance(node, nnx.Object):
